@@ -17,6 +17,8 @@ Normal form (`normalize(body_text, where)` → list of nodes):
     ('do', text)                        expression statement, canonical white-space-free text
     ('if', cond, then, else)            cond = canonical POSITIVE condition text (or ('or', [conds]) / ('and', [conds])); then/else = node lists
     ('loop', var, start, bound, body)   counting loop var = start, start+1, … < bound (var is `$i<depth>` inside body, bound and start are texts)
+    ('first', var, start, bound, cond)  a search `for (var = start; var < bound; var++) if (cond) break;`: var = the least index in
+                                        [start, bound) with cond, else bound (var keeps its `$v<n>` name: it is read after the loop)
     ('while', cond, body)               any other loop
     ('return', text) | ('break',) | ('continue',)      (`continue` survives only where it cannot be restructured)
 Anything the parser does not know raises ExtractFail.
@@ -558,6 +560,8 @@ def _rename(node, old, new):
         return ("loop", node[1], r(node[2]), r(node[3]), [_rename(x, old, new) for x in node[4]])
     if k == "while":
         return ("while", rc(node[1]), [_rename(x, old, new) for x in node[2]])
+    if k == "first":
+        return ("first", r(node[1]), r(node[2]), r(node[3]), rc(node[4]))
     return node
 
 
@@ -591,6 +595,12 @@ def _loop(c, body, before, ctx):
                             break
                     if _mentions(before[j], v):
                         break
+                if start is not None and len(inner) == 1 and inner[0][0] == "if" and inner[0][2] == [("break",)] and not inner[0][3]:
+                    # a search: v = the least index in [start, bound) with the condition, else bound (v is read after the loop)
+                    return ("first", v, start, bound, inner[0][1])
+                if start is not None and _has_jump(inner):
+                    before.append(("do", "%s=%s" % (v, start)))
+                    return ("while", c, body)
                 if start is not None:
                     name = "$i%d" % _depth(inner)
                     return ("loop", name, start, bound, [_rename(x, v, name) for x in inner])
@@ -613,6 +623,8 @@ def _mentions(node, v):
         return bool(rx.search(node[2]) or rx.search(node[3])) or any(_mentions(x, v) for x in node[4])
     if k == "while":
         return cm(node[1]) or any(_mentions(x, v) for x in node[2])
+    if k == "first":
+        return bool(rx.search(node[1]) or rx.search(node[2]) or rx.search(node[3])) or cm(node[4])
     return False
 
 
@@ -654,6 +666,8 @@ def show(nodes, ind=0):
         elif x[0] == "while":
             out.append("%swhile %r" % (p, x[1]))
             out += show(x[2], ind + 1)
+        elif x[0] == "first":
+            out.append("%sfirst %s in %s .. < %s with %r" % (p, x[1], x[2], x[3], x[4]))
         else:
             out.append(p + " ".join(str(y) for y in x))
     return out
